@@ -253,7 +253,7 @@ func genC01(e *emitter, tier string, seed uint64) {
 		for _, no := range counts {
 			reps := 6
 			if !quick {
-				reps = 60
+				reps = 10
 			}
 			for k := 0; k < reps; k++ {
 				tx := genTx(r, ni, no, !quick || k == 0)
@@ -269,6 +269,13 @@ func genC01(e *emitter, tier string, seed uint64) {
 	}
 	for _, c := range bcounts {
 		tx := genTx(r, c[0], c[1], false)
+		if c[0]+c[1] > 1000 {
+			// the 0xfd/0xfe boundary: megabytes per line, so one serialisation op and one parse op only
+			e.run("C01.ser", descTx(tx))
+			e.run("C01.parse", hex.EncodeToString(tx.Bytes()))
+			e.note("boundary-65535")
+			continue
+		}
 		emitTxOps(e, tx)
 		emitBytesOps(e, tx.Bytes(), "boundary-std")
 		emitBytesOps(e, tx.ExtendedBytes(), "boundary-ext")
@@ -290,7 +297,7 @@ func genC01(e *emitter, tier string, seed uint64) {
 	nSeeds := len(seeds)
 	lim := 40
 	if !quick {
-		lim = 400
+		lim = 60
 	}
 	for si := 0; si < nSeeds && si < lim; si++ {
 		b := seeds[r.n(nSeeds)]
